@@ -16,6 +16,25 @@ CLAIMS = {
             "DESIGN.md 7 C13"),
 }
 
+ARB_NOTE = ("Trusted: Rocq kernel + vm_compute; the hand-written model coq/Arb of internal/k8s/configuration.go (tied by the arb correspondence harness driving the real "
+            "k8s.Configuration on random histories, every step compared); the projection of real objects onto the model's attributes; validators and the class predicate as "
+            "oracles whose real verdicts are fed to the model; API-server assumptions K1-K3 enforced by the generator.")
+
+CLAIMS["C01"] = (
+    "Rocq theorems over all event histories of a model of Configuration (strict total order of the winner relation, running-holder fold = least claimant in any order, "
+    "state = last write per key, hosts = function of the object set); model tied by a correspondence harness on the real k8s.Configuration; order-free owner spec evaluated on the implementation's hosts map",
+    "Machine-checked proof (no axioms) that for every finite history the owner of every host in the model's hosts map is the least claimant (creationTimestamp, then UID) of the current object set, "
+    "that a claimed host always has an owner which is a claimant, and that hosts / listener hosts / GetResources depend on the history only through the final object set (any permutation ending in the same set); "
+    "the model is run step by step against the real Configuration on generated histories and their re-orderings, and the order-free specification is evaluated on the implementation's own hosts map after every event.",
+    ARB_NOTE, "DESIGN.md 7 C01")
+CLAIMS["C02"] = (
+    "Rocq theorems over all histories (listener+host owner = least claimant; active only on a listener of matching name and protocol, bound to its port/addresses) and over all listener lists "
+    "(refinement of the validator's ip/port/protocol tables to a table-free specification; no conflicts, unique names, no reserved port, malformed entries inert, valid entries admitted); "
+    "two correspondence harnesses (real Configuration; real createGlobalConfigurationValidator + ValidateGlobalConfiguration)",
+    "Machine-checked proof (no axioms) of listener ownership and binding for every history, and of the admission guarantees for every listener list and every reserved-port set, including that the "
+    "entries the code records for rejected listeners never change a verdict; both models are run against the real code on every run and the decidable guarantees are evaluated on the real admitted lists.",
+    ARB_NOTE + " DNS-label and IP-address syntax are oracle bits probed from the real validator.", "DESIGN.md 7 C02")
+
 NOT_YET = {}
 
 
